@@ -65,7 +65,7 @@ VARIANTS = {
                "-fsanitize=address,undefined", "-fsanitize-recover=all"],
     "ubrec": ["-O1", "-g", "-fno-omit-frame-pointer",
               "-fsanitize=undefined", "-fsanitize-recover=all"],
-    "vg": ["-O1", "-g"],
+    "vg": ["-O1", "-g", "-gdwarf-4"],   # valgrind 3.19 cannot read clang 14's default DWARF 5
 }
 
 COMMON_FLAGS = ["-std=gnu++11", "-DUNIX_HOST_DUINO", "-Wno-everything"]
@@ -315,6 +315,32 @@ def classify_ub(msg):
     return "other"
 
 
+_VG_RE = re.compile(r"^==\d+== (Invalid (?:read|write) of size \d+|Conditional jump or move depends on uninitialised value\(s\)|"
+                    r"Use of uninitialised value of size \d+|Syscall param .* uninitialised|Invalid free|Mismatched free|"
+                    r"Source and destination overlap.*|Process terminating with default action of signal \d+.*)")
+_VG_AT = re.compile(r"^==\d+==\s+(?:at|by) 0x[0-9A-F]+: (.+?) \((\S+?):(\d+)\)")
+
+
+def parse_valgrind(stderr_text, repo=REPO):
+    """valgrind memcheck error blocks -> same shape as sanitizer blocks (kind valgrind:<what>)."""
+    blocks = []
+    lines = stderr_text.splitlines()
+    for i, ln in enumerate(lines):
+        m = _VG_RE.match(ln)
+        if not m:
+            continue
+        what = re.sub(r"\d+", "N", m.group(1)).replace(" ", "-")
+        site, fn = None, None
+        for j in range(i + 1, min(i + 25, len(lines))):
+            a = _VG_AT.match(lines[j])
+            if a and ("ace_time" in a.group(2) or a.group(2).endswith((".h", ".cpp"))) and "vcommon" not in a.group(2):
+                fn, site = a.group(1), "%s:%s" % (a.group(2), a.group(3))
+                if "/" not in a.group(2) or "ace_time" in lines[j] or True:
+                    break
+        blocks.append({"kind": "valgrind:" + what, "site": site, "function": fn, "message": m.group(1)})
+    return blocks
+
+
 class ShardResult:
     def __init__(self):
         self.counters = {}
@@ -398,6 +424,8 @@ def run_shards(exe, arg_lists, timeout=900, env_extra=None, san=None,
                 else:
                     res.merge_line(obj)
             blocks = parse_sanitizer(err_t)
+            if valgrind:
+                blocks += parse_valgrind(err_t)
             for b in blocks:
                 b["shard"] = idx
                 b["open_call"] = last_open
